@@ -14,9 +14,9 @@ _cell_serial = [0]
 
 
 # branch census of the abstract interpretation (adequacy of the shape families): condition -> outcomes seen.
-# Enabled by the environment variable GMG_COVER=<file>; report.Check.finish merges the map into that file.
+# Always collected (cheap); summarised in every evidence file; GMG_COVER=<dir> additionally dumps the full map per check.
 import os as _os
-COVER = {} if _os.environ.get("GMG_COVER") else None
+COVER = {}
 
 
 def cover(e, outcome, fr):
